@@ -75,11 +75,14 @@ func (mapVacuum *MapVacuum[K, V]) vacuumInBackground() {
 }
 
 func (mapVacuum *MapVacuum[K, V]) vacuum() {
-	mapVacuum.entriesMutex.RLock()
-	mapVacuumEntries := mapVacuum.entries
-	mapVacuum.entriesMutex.RUnlock()
+	// entries is appended to by VacuumKey under entriesMutex, so the whole pass
+	// (reading the entries and cutting off the vacuumed prefix) holds it too.
+	// Lock order is entriesMutex -> mapMutex; VacuumKey is never called with
+	// mapMutex held.
+	mapVacuum.entriesMutex.Lock()
+	defer mapVacuum.entriesMutex.Unlock()
 
-	if len(mapVacuumEntries) == 0 {
+	if len(mapVacuum.entries) == 0 {
 		return
 	}
 
@@ -96,10 +99,7 @@ func (mapVacuum *MapVacuum[K, V]) vacuum() {
 	}
 	mapVacuum.mapMutex.Unlock()
 
-	// check if needed
-	mapVacuum.entriesMutex.Lock()
 	mapVacuum.entries = mapVacuum.entries[deleteUntil:]
-	mapVacuum.entriesMutex.Unlock()
 	if deleteUntil > 0 {
 		log.Trace().
 			Msgf("vacuum (%s) vacuumed %d entries", mapVacuum.name, deleteUntil)
